@@ -42,7 +42,16 @@ func init() {
 
 		// ---- choose form rows
 		var rows []*formRow
-		if *f.tier == "thorough" {
+		var replayed []*c05Case
+		if *f.replay != "" {
+			lines, err := readLines(*f.replay)
+			if err != nil {
+				return err
+			}
+			if replayed, err = c05Replay(db, g, lines); err != nil {
+				return err
+			}
+		} else if *f.tier == "thorough" {
 			k := *reps
 			if k <= 0 {
 				k = 5
@@ -104,8 +113,13 @@ func init() {
 			}
 			add(c)
 		}
-		for _, c := range c05Scripted(db, g) {
+		for _, c := range replayed {
 			add(c)
+		}
+		if *f.replay == "" {
+			for _, c := range c05Scripted(db, g) {
+				add(c)
+			}
 		}
 
 		// ---- assemble and decode in parallel batches
@@ -138,6 +152,7 @@ func init() {
 						c05XDecode(c)
 					}
 				}
+				_ = tag
 			}(b, cases[lo:hi])
 		}
 		wg.Wait()
